@@ -5,7 +5,7 @@ from . import storeops
 PROP = "C07"
 LEVEL = "exploration"
 BUDGET = {"quick": 200, "thorough": 1500}
-NCASES = {"quick": 1500, "thorough": 25000}
+NCASES = {"quick": 3000, "thorough": 40000}
 RULE = ("C05-style histories biased to writes: key-override writes to shared override keys (k, k/sub, j; null results that "
         "delete the override link), equal bytes produced by different functions (12% of values reuse ids 1-3), forgets of "
         "other calls, restarts; after EVERY step the whole store is scanned (hash of every object under c/, link targets, "
